@@ -131,9 +131,10 @@ class JSim(cluster.Sim):
         log = core.log_of(obj)
         have = dict((e[1], e[2]) for e in log[:])
         first = log[0][1] if len(log) else 1
-        if not self.cfg.get('dump') and first > 1:
+        if not self.cfg.get('dump') and (first > 1 or (len(log) == 1 and log[0][2] != 0)):
             # known finding: this process restarted from a journal whose head was compacted away without a dump
-            # file - its state is gone; everything that follows in this case is a consequence
+            # file (or that was cleared by a snapshot install and re-initialised with one entry of the current
+            # term) - its state is gone; everything that follows in this case is a consequence
             self.jo_compacted = True
         lost = []
         for idx, term in sorted(owed.items()):
@@ -361,6 +362,7 @@ def run_once(case, kill_plan):
     install_monitors(sim)
     if no_compaction:
         sim.op_compact = lambda a, b, c: (sim.counters.__setitem__('compaction_excluded', sim.counters['compaction_excluded'] + 1), False)[1]
+        sim.no_force_compaction = True      # macro steps (lagsnap) do not compact either
     try:
         resolved = simprop.run_steps(sim, case, EXTRA, EXTRA2)
         own = lambda: [v for v in sim.all_viol if v[0] in OWN and (OWN[v[0]] is None or v[1] in OWN[v[0]])]
